@@ -70,6 +70,9 @@ func ruleAdmits(p policy, email string, groups []string) bool {
 			}
 		}
 	}
+	if len(p.Groups) == 1 && p.Groups[0] == "*" {
+		return true
+	}
 	for _, g := range groups {
 		for _, a := range p.Groups {
 			if g == a {
